@@ -61,6 +61,8 @@ pub enum WHow {
 #[derive(Clone, Debug, Serialize, Deserialize, PartialEq)]
 pub enum WOp {
     Write { len: u16, how: WHow },
+    /// AsyncWriteExt::write with a buffer beyond 64 KiB
+    BigWrite { len: u32 },
     Sleep { ticks: u16 },
     Yield,
 }
@@ -82,6 +84,9 @@ pub enum Fin {
     DropWrite,
     /// the FIN is only sent by the final drop of the stream
     None,
+    /// shutdown() on the owned write half, then drop it at once while the read half keeps reading
+    /// (Split forms; otherwise plain shutdown)
+    ShutdownDropWrite,
 }
 
 /// How the final read-until-the-end loop of an end works (`EndSpec::drain` gives its buffer size).
@@ -169,7 +174,7 @@ pub struct C02;
 
 impl EndSpec {
     fn segs(&self) -> usize {
-        self.wops.iter().filter(|o| matches!(o, WOp::Write { len, .. } if *len > 0)).count()
+        self.wops.iter().filter(|o| matches!(o, WOp::Write { len, .. } if *len > 0) || matches!(o, WOp::BigWrite { .. })).count()
     }
     fn reader_sleep(&self) -> u64 {
         self.rops.iter().map(|o| if let ROp::Sleep { ticks } = o { *ticks as u64 } else { 0 }).sum()
@@ -249,7 +254,7 @@ pub fn late_fin_exposed(sc: &Scenario) -> Vec<(usize, usize)> {
                 None => {
                     // a reader that stops: exposed when it can have consumed everything the peer writes
                     let can_read: u64 = e.rops.iter().map(|o| if let ROp::Read { buf } = o { *buf as u64 } else { 0 }).sum();
-                    let must_write: u64 = p.wops.iter().map(|o| if let WOp::Write { len, how } = o { if *how == WHow::Try { 0 } else { *len as u64 } } else { 0 }).sum();
+                    let must_write: u64 = p.wops.iter().map(|o| match o { WOp::Write { len, how } => if *how == WHow::Try { 0 } else { *len as u64 }, WOp::BigWrite { len } => *len as u64, _ => 0 }).sum();
                     can_read >= must_write
                 }
                 Some(_) => e.drain_mode == DrainMode::Exact,
@@ -289,7 +294,7 @@ fn gen_end(rng: &mut Rng, small: bool, lat: u64) -> EndSpec {
         wops.push(WOp::Write { len, how });
         writes += 1;
     }
-    let fin = *rng.pick(&[Fin::Shutdown, Fin::Shutdown, Fin::DropWrite, Fin::None]);
+    let fin = *rng.pick(&[Fin::Shutdown, Fin::Shutdown, Fin::DropWrite, Fin::None, Fin::ShutdownDropWrite]);
     let fin_delay = if rng.chance(3, 4) { 0 } else { rng.range(1, lat + 5) as u16 };
     let nr = if small { rng.usize(0, 4) } else { rng.usize(0, 8) };
     let rops = (0..nr)
@@ -301,6 +306,10 @@ fn gen_end(rng: &mut Rng, small: bool, lat: u64) -> EndSpec {
             _ => ROp::Yield,
         })
         .collect();
+    // one write call larger than 64 KiB, now and then (the length is a u32 only there)
+    if !small && rng.chance(1, 60) {
+        wops.push(WOp::BigWrite { len: rng.range(65_537, 90_000) as u32 });
+    }
     let drain = if rng.chance(6, 7) { Some((*rng.pick(&BUFS)).max(1)) } else { None };
     let drain_mode = *rng.pick(&[DrainMode::Plain, DrainMode::Plain, DrainMode::Plain, DrainMode::Plain, DrainMode::PeekFirst, DrainMode::PeekFirst, DrainMode::Exact, DrainMode::Exact]);
     EndSpec { form, wops, fin, fin_delay, rops, drain, drain_mode, linger: if rng.chance(3, 4) { 0 } else { rng.range(1, 5) as u16 }, keep: rng.chance(1, 7) }
@@ -824,8 +833,15 @@ async fn writer(sh: Sh, c: usize, side: usize, spec: EndSpec, io: IoCell) {
             return;
         }
         match op {
-            WOp::Write { len, how } => {
-                let len = *len as usize;
+            WOp::Write { .. } | WOp::BigWrite { .. } => {
+                let (len, how) = match op {
+                    WOp::Write { len, how } => (*len as usize, how),
+                    WOp::BigWrite { len } => {
+                        sh.probe("single_write_call_beyond_64KiB");
+                        (*len as usize, &WHow::Write)
+                    }
+                    _ => unreachable!(),
+                };
                 let off = sh.st.borrow()[c].d[dir].accepted;
                 let data = stream_bytes(c as u32, dir as u8, off, len);
                 // Try / WritableTry exist on the unsplit stream only
@@ -927,7 +943,7 @@ async fn writer(sh: Sh, c: usize, side: usize, spec: EndSpec, io: IoCell) {
     }
     match spec.fin {
         Fin::None => {}
-        Fin::Shutdown | Fin::DropWrite => {
+        Fin::Shutdown | Fin::DropWrite | Fin::ShutdownDropWrite => {
             sh.st.borrow_mut()[c].d[dir].close_started = true;
             let split_w = match &mut *io.borrow_mut() {
                 Io::Split(_, w) if spec.fin == Fin::DropWrite => w.take(),
@@ -944,6 +960,18 @@ async fn writer(sh: Sh, c: usize, side: usize, spec: EndSpec, io: IoCell) {
                         sh.log.ev(format!("{who} shutdown -> Ok"));
                         sh.log.tag("sd");
                         sh.st.borrow_mut()[c].d[dir].closed_ok = true;
+                        if spec.fin == Fin::ShutdownDropWrite {
+                            let w = match &mut *io.borrow_mut() {
+                                Io::Split(_, w) => w.take(),
+                                _ => None,
+                            };
+                            if let Some(w) = w {
+                                drop(w);
+                                sh.log.ev(format!("{who} dropped the owned write half after its shutdown"));
+                                sh.log.tag("sdw");
+                                sh.probe("write_half_shut_down_then_dropped_while_reading");
+                            }
+                        }
                     }
                     Err(e) => {
                         sh.log.ev(format!("{who} shutdown -> Err {}", kind_name(e.kind())));
@@ -1482,6 +1510,11 @@ fn shrink_end(e: &EndSpec) -> Vec<EndSpec> {
         out.push(c);
     }
     for i in 0..e.wops.len() {
+        if let WOp::BigWrite { .. } = &e.wops[i] {
+            let mut c = e.clone();
+            c.wops[i] = WOp::Write { len: 1024, how: WHow::Write };
+            out.push(c);
+        }
         if let WOp::Write { len, how } = &e.wops[i] {
             if *len > 1 {
                 let mut c = e.clone();
@@ -1504,7 +1537,7 @@ fn shrink_end(e: &EndSpec) -> Vec<EndSpec> {
     if e.linger > 0 {
         out.push(EndSpec { linger: 0, ..e.clone() });
     }
-    if e.fin == Fin::DropWrite {
+    if e.fin == Fin::DropWrite || e.fin == Fin::ShutdownDropWrite {
         out.push(EndSpec { fin: Fin::Shutdown, ..e.clone() });
     }
     if !e.keep {
